@@ -11,7 +11,7 @@ import LopdfModel.Model.Pages
 -/
 namespace Lopdf
 
-def U32_MAX : Nat := 4294967295
+def U32_MAXE : Nat := 4294967295
 
 /-- insertion into a list sorted by `le`, before the first element that is not smaller
 (so that a right-to-left insertion sort is stable, like `slice::sort_by`). -/
@@ -22,7 +22,7 @@ def insertBy {α} (le : α → α → Bool) (x : α) : List α → List α
 /-- stable sort (`slice::sort_by`) -/
 def sortBy {α} (le : α → α → Bool) (l : List α) : List α := l.foldr (insertBy le) []
 
-def idLe (a b : ObjId) : Bool := !idLt b a
+def idLeE (a b : ObjId) : Bool := !idLt b a
 
 /-- `BTreeMap<ObjectId, ObjectId>::get` on the `replace` map -/
 def lookupId (m : List (ObjId × ObjId)) (k : ObjId) : Option ObjId :=
@@ -47,10 +47,10 @@ def renameAct (m : List (ObjId × ObjId)) : Action := ⟨renameFn m, renameFn_si
 table abandons the current list (`return`). `depth` bounds the recursion *depth* only
 (bookmark tables built by `add_bookmark` are forests; on a cyclic table the real code
 overflows the stack — outside the modelled domain). -/
-def updatePages : Nat → BmTable → List Nat → ObjId → ObjId → BmTable
+def updatePages : Nat → BkTable → List Nat → ObjId → ObjId → BkTable
   | 0, t, _, _, _ => t
   | depth + 1, t, ids, old, new =>
-    (ids.foldl (fun (st : BmTable × Bool) id =>
+    (ids.foldl (fun (st : BkTable × Bool) id =>
       if st.2 then st else
       match st.1.get id with
       | none => (st.1, true)
@@ -60,7 +60,7 @@ def updatePages : Nat → BmTable → List Nat → ObjId → ObjId → BmTable
         (t2, false)) (t, false)).1
 
 /-- `renumber_bookmarks` -/
-def renumberBookmarks (bookmarks : List Nat) (t : BmTable) (old new : ObjId) : BmTable :=
+def renumberBookmarks (bookmarks : List Nat) (t : BkTable) (old new : ObjId) : BkTable :=
   if bookmarks.isEmpty then t
   else updatePages (t.length + 1) t bookmarks old new
 
@@ -70,7 +70,7 @@ structure MoveSt where
   objects : Objects
   tmp : Objects
   replace : List (ObjId × ObjId)
-  bm : BmTable
+  bm : BkTable
 
 /-- `if let Some(object) = self.objects.remove(old) { objects.insert(new, object); replace.insert(old, new) }` -/
 def moveObj (st : MoveSt) (p : ObjId × ObjId) : MoveSt :=
@@ -86,14 +86,14 @@ def moveStep (bookmarks : List Nat) (st : MoveSt) (p : ObjId × ObjId) : MoveSt 
   else st1
 
 /-- move all pairs, then re-insert the temporary map -/
-def movePass (bookmarks : List Nat) (os : Objects) (bm : BmTable) (pairs : List (ObjId × ObjId)) : MoveSt :=
+def movePass (bookmarks : List Nat) (os : Objects) (bm : BkTable) (pairs : List (ObjId × ObjId)) : MoveSt :=
   let st := pairs.foldl (moveStep bookmarks) ⟨os, [], [], bm⟩
   { st with objects := st.tmp.foldl (fun acc kv => acc.insert kv.1 kv.2) st.objects }
 
 /-- pairs of the page-order pass: k-th page in page order  ↦  (number of the k-th smallest page id, own generation) -/
 def pagePairs (pages : List ObjId) : Option (List (ObjId × ObjId)) :=
   let pageOrder : List (Nat × ObjId) := (List.range pages.length).zip pages |>.map (fun (i, id) => (i + 1, id))
-  let sorted := sortBy (fun a b => idLe a.2 b.2) pageOrder
+  let sorted := sortBy (fun a b => idLeE a.2 b.2) pageOrder
   let needs := ((List.range sorted.length).zip sorted).any (fun (j, a) => a.1 ≠ j + 1)
   if needs then
     let pages' := sortBy (fun (a b : Nat × ObjId) => a.1 ≤ b.1) sorted
@@ -106,7 +106,7 @@ def densePairs : List ObjId → Nat → List (ObjId × ObjId) → Option (List (
   | [], newId, acc => some (acc, newId)
   | id :: rest, newId, acc =>
     let acc' := if id.1 ≠ newId then acc ++ [(id, (newId, id.2))] else acc
-    if newId + 1 > U32_MAX then none else densePairs rest (newId + 1) acc'
+    if newId + 1 > U32_MAXE then none else densePairs rest (newId + 1) acc'
 
 /-- first half of `renumber_objects_with`: put the pages in page order (only when they are not) -/
 def pagePass (d : Doc) : Doc :=
@@ -119,7 +119,7 @@ def pagePass (d : Doc) : Doc :=
 
 /-- second half: consecutive numbers from `start`, `max_id = new_id - 1` -/
 def densePass (d1 : Doc) (start : Nat) : Outcome Doc :=
-  match densePairs (sortBy idLe d1.objects.keys) start [] with
+  match densePairs (sortBy idLeE d1.objects.keys) start [] with
   | none => .panic "add"
   | some (pairs, newId) =>
     let st := movePass d1.bookmarks d1.objects d1.bmTable pairs
